@@ -564,6 +564,33 @@ func init() {
 				if pan {
 					viol = "panic: " + msg
 				}
+				if viol == "" && sign == 1 {
+					// unsigned counters in the upper half of their range (beyond every int64)
+					for _, u := range []uint{1 << 63, 1<<63 + uint(big), math.MaxUint64} {
+						pan, msg := guard(func() {
+							oc := &ap.OrderedCollectionPage{ID: "https://example.com/c", Type: ap.OrderedCollectionPageType, TotalItems: u, StartIndex: u}
+							b, err := ap.MarshalJSON(oc)
+							var back ap.Item
+							if err == nil {
+								back, err = ap.UnmarshalJSON(b)
+							}
+							if q, ok := back.(*ap.OrderedCollectionPage); err != nil || !ok || q.TotalItems != u || q.StartIndex != u {
+								viol = fmt.Sprintf("totalItems/startIndex %d come back as %v (%v)   bytes: %s", u, back, err, b)
+							}
+							l := &ap.Link{ID: "https://example.com/l", Type: ap.LinkType, Width: u, Height: u}
+							b, err = ap.MarshalJSON(l)
+							if err == nil {
+								back, err = ap.UnmarshalJSON(b)
+							}
+							if q, ok := back.(*ap.Link); err != nil || !ok || q.Width != u || q.Height != u {
+								viol = fmt.Sprintf("Link width/height %d come back as %v (%v)   bytes: %s", u, back, err, b)
+							}
+						})
+						if pan {
+							viol = "panic: " + msg
+						}
+					}
+				}
 				in := map[string]interface{}{"bigint": fmt.Sprint(z)}
 				c.Count(in, true)
 				c.Tag("deep-corner/big-integers")
@@ -607,11 +634,13 @@ func init() {
 				return fmt.Sprintf("Place.radius %d comes back as %v", z, back)
 			}
 			if z > 0 {
-				l := &ap.Link{ID: "https://example.com/l", Type: ap.LinkType, Width: uint(z)}
-				b, _ = ap.MarshalJSON(l)
-				back, err = ap.UnmarshalJSON(b)
-				if q, ok := back.(*ap.Link); err != nil || !ok || q.Width != uint(z) {
-					return fmt.Sprintf("Link width %d comes back as %v", z, back)
+				for _, u := range []uint{uint(z), 1 << 63, 1<<63 + uint(z), math.MaxUint64} {
+					l := &ap.Link{ID: "https://example.com/l", Type: ap.LinkType, Width: u}
+					b, _ = ap.MarshalJSON(l)
+					back, err = ap.UnmarshalJSON(b)
+					if q, ok := back.(*ap.Link); err != nil || !ok || q.Width != u {
+						return fmt.Sprintf("Link width %d comes back as %v", u, back)
+					}
 				}
 			}
 			return ""
